@@ -318,7 +318,10 @@ pub fn run(tier: Tier) -> Report {
     let ns: Vec<usize> = tier.pick(vec![2, 3, 4], vec![2, 3, 4, 5, 7, 9]);
     for &n in &ns {
         for v6 in [false, true] {
-            for port in [None, Some(4242u16)] {
+            for port in [None, Some(4242u16), Some(443u16), Some(1u16), Some(65535u16)] {
+                if matches!(port, Some(443) | Some(1) | Some(65535)) && n != 3 {
+                    continue;
+                }
                 for placement in 0..3u8 {
                     let pairs: Vec<(usize, usize)> = if n <= 4 {
                         (0..n).flat_map(|a| (0..n).filter(move |s| *s != a).map(move |s| (a, s))).collect()
